@@ -4,11 +4,13 @@ PROP = {
     "assumptions": [
         "only attacker-chosen strings vary; no symlinks are planted in the output directory",
         "absolute attack paths point into the harness scratch jail",
-        "monitor = before/after snapshot of everything around the output directory; create-then-delete within one run is not seen by this monitor",
+        "monitor = before/after snapshot of everything around the output directory, and of a second jail around the process's working directory (which is never an output directory); create-then-delete within one run is not seen by this monitor",
+        "the working directory is shared by the 16 parallel cases: a change there is attributed by running every case that was in flight (or among the last 16 finished) again alone in a fresh working directory; a change that no case reproduces alone is reported under escape:unattributed:process-working-directory",
+        "prior content of the output directory is limited to what an earlier accepted transfer leaves there (regular files, directories, sidecars of the wrong kind or damaged); permissions, full disks and I/O errors are not driven",
     ],
 }
 META = {
-    "technique": "runtime monitor: hostile-sender script against the real receivers with a before/after file-system snapshot of a jail around the output directory",
-    "text": "Exploration over attacker strings (parent references, absolute paths, separators smuggled into names/ids, NUL, over-long, seeded segment mixes) placed in manifest.root, item.rel_path (files and directories), item.id, FileBegin.rel_path, the legacy file name and the offered root name, against the real RecvManifestMultiStream (both root modes, resume on/off) over QUIC, legacy RecvManifest/RecvFile and the app's resume-data helpers: nothing outside <jail>/a/out may be created, changed or removed.",
+    "technique": "runtime monitor: hostile-sender script against the real receivers with a before/after file-system snapshot of a jail around the output directory and of a jail around the process's working directory",
+    "text": "Exploration over attacker strings (parent references, absolute paths, separators smuggled into names/ids, NUL, over-long, seeded segment mixes) placed in manifest.root, item.rel_path (files and directories), item.id, FileBegin.rel_path, the legacy file name and the offered root name, plus well-formed names that make the receiver's own file operations fail (names around NAME_MAX with and without the suffixes the receiver appends, names of the receiver's resume directory / sidecar / temporary files, names of other items of the same manifest) and output directories in which an earlier transfer left an entry of the wrong kind (file where the resume or root directory goes, directory where a file, sidecar or sidecar temp file goes, damaged sidecar) so that the error paths run, against the real RecvManifestMultiStream (both root modes, resume on/off) over QUIC, legacy RecvManifest/RecvFile and the app's resume-data helpers: nothing outside <jail>/a/out may be created, changed or removed, neither around the output directory nor in or around the process's working directory (where paths built from empty or relative strings land).",
     "note": "Trusted: the snapshot diff (sha256, mtime). Symlink planting and TOCTOU attacks on the output directory are not driven.",
 }
